@@ -517,6 +517,8 @@ func (s *Session) collect() (*Reply, error) {
 			r.Msgs = append(r.Msgs, "3")
 		case *pgproto3.EmptyQueryResponse:
 			r.Msgs = append(r.Msgs, "I")
+		case *pgproto3.PortalSuspended: // c04e.go
+			r.Msgs = append(r.Msgs, "s")
 		default:
 			r.Msgs = append(r.Msgs, "?")
 		}
